@@ -319,8 +319,11 @@ def finish(mod, res: Result, kf):
         explanation=getattr(mod, 'EXPLANATION', '') + ('' if all_discharged else ' [this run: not every obligation discharged -> level reported as other]'),
         undecided=res.undecided[:20], known_findings=res.known,
     )
+    kf_note = ['every function is verified for inputs outside the regions of the active known findings (' +
+               ', '.join(e['id'] for e in kf.get('findings', [])) + '); inside its own proof a function\'s postcondition is weakened by its region, '
+               'at call sites the region is excluded by this assumption']
     ev = dict(property_id=prop_id, tier=res.tier, seed=res.seed, level=level, coverage=coverage,
-              assumptions=list(getattr(mod, 'ASSUMPTIONS', [])), wall_s=wall, violations=len(res.violations))
+              assumptions=list(getattr(mod, 'ASSUMPTIONS', [])) + kf_note, wall_s=wall, violations=len(res.violations))
     os.makedirs(os.path.join(HERE, 'evidence'), exist_ok=True)
     with open(os.path.join(HERE, 'evidence', f'{prop_id}.json'), 'w') as f:
         json.dump(ev, f, indent=1, default=str)
